@@ -320,3 +320,51 @@ def suite_corpus(rep=None):
             'texts': len(texts),
             'pytest_tail': p.stdout.decode('utf-8', 'replace')[-120:].strip()}
     return texts
+
+
+# wrapper programs: two small themes, so that the derivation stays cheap
+WRAP_THEMES = [
+    (['ID', '(', ')', 'function', '{', '}', ';'], 10,
+     ['ID ( function ( ) { } ) ;',            # callback argument
+      '( function ( ) { } ) ( ) ;',           # immediately invoked
+      'function ID ( ) { }']),                # declaration
+    (['ID', '=', 'function', '(', ')', '{', '}', ';'], 8,
+     ['ID = function ( ) { } ;']),            # assigned
+]
+
+
+def templates(rep=None):
+    """the wrapper programs, derived by the machine like everything else;
+    a wrapper inside a wrapper gives the deeper ones (sentence.embed)"""
+    from sentence import embed
+    got = {}
+    for j, (sigma, maxtok, wanted) in enumerate(WRAP_THEMES):
+        mc, cfg = model_text('wrap%d' % j, 'Program', sigma, maxtok, 0)
+        r = run_tlc('MC_wrap%d' % j, cfg='MC_wrap%d.cfg' % j, cfg_text=cfg,
+                    modules={'MC_wrap%d' % j: mc}, workers=4, heap='4g')
+        if rep is not None:
+            rep.add_tlc(r)
+        for s in parse_lines(r.lines, theme='wrap'):
+            if s.abstract() in wanted:
+                got[s.abstract()] = s
+        missing = [t for t in wanted if t not in got]
+        if missing:
+            raise MachineryError('wrapper templates not derived: %r'
+                                 % missing)
+    base = [got[t] for _, _, w in WRAP_THEMES for t in w]
+    # callback inside a declaration, immediately invoked inside a callback
+    return base + [embed(base[2], base[0]), embed(base[0], base[1])]
+
+
+def embeddings(sents, tmpls, rng, per_sentence=1):
+    """each sentence inside the function body of `per_sentence` rotating
+    wrapper templates (sentence.embed) -> [Sentence]"""
+    from sentence import embed
+    out = []
+    for j, s in enumerate(sents):
+        if s.raw[0][0][:2] != ['(', 'ES5Program']:
+            continue
+        for k in range(per_sentence):
+            t = tmpls[(j + k * 3 + rng.randrange(len(tmpls))) % len(tmpls)]
+            out.append(embed(t, s))
+    return out
